@@ -3,10 +3,10 @@ package main
 // C19 — prefix, NLRI, add-path and MP_REACH/MP_UNREACH decoders are exact.
 
 import (
-	"os"
 	"fmt"
 	"go/token"
 	"go/types"
+	"os"
 	"strings"
 
 	"golang.org/x/tools/go/ssa"
